@@ -23,7 +23,17 @@ Rust → model:
   `j == 0` break, charge loop `1..=max_charge` with the `continue`)       → `deisotope`
 * `process_ms2` (both branches), `process` (MS1 / MS2, stable sort by mass, TIC) → `processMs2`, `process`
 
-Rejected inputs: `process_ms2` panics on a non-centroid MS2 spectrum → `process … = none`.
+* the whole `RawSpectrum` / `ProcessedSpectrum` (pass-through fields, precursors; only the FIRST precursor's charge is
+  read) → `RawFull`, `Processed`, `processFull`;  `process_with_mobility` → `processIms`
+
+Non-finite values: at `Float32` the three comparisons are the code's (`leB`/`ltB` IEEE, false on NaN; `tltB` =
+`total_cmp` through `f32Key`), so NaN, ±∞, −0.0, negative and subnormal inputs run through the same decisions as in
+Rust. One limit: Lean cannot observe the sign or payload of a NaN (`Float32.toBits` canonicalises), so `f32Key` puts every
+NaN where `total_cmp` puts the positive quiet NaN (last). Not present at this commit: `min_fragment_mz` /
+`max_fragment_mz` filters (mentioned only in the doc comment of `SpectrumProcessor::new`).
+
+Rejected inputs: `process_ms2` panics on a non-centroid MS2 spectrum → `process … = none`; `process_with_mobility` panics
+when `ms_level != 1` or `mobility` is `None` → `processIms … = none`.
 `mz` and `intensity` are assumed to have equal length (the model takes a list of pairs).
 -/
 
@@ -364,6 +374,91 @@ def specDeisotope (inp : List (α × α)) (maxz : Nat) (ppm minMz : α) (out : L
   else "ok"
 
 end model
+
+
+/-! ## the whole `ProcessedSpectrum`: pass-through fields, precursors, and `process_with_mobility` -/
+
+/-- `mass::Tolerance` as carried by `Precursor::isolation_window` (only passed through here) -/
+inductive Tol (α : Type) where
+  | ppm (lo hi : α)
+  | pct (lo hi : α)
+  | da (lo hi : α)
+deriving Repr
+
+/-- `spectrum::Precursor` -/
+structure Precursor (α : Type) where
+  mz : α
+  intensity : Option α
+  charge : Option Nat
+  spectrumRef : Option (List UInt8)
+  isolationWindow : Option (Tol α)
+  inverseIonMobility : Option α
+
+/-- `spectrum::RawSpectrum`, every field (`mz` zipped with `intensity`) -/
+structure RawFull (α : Type) where
+  fileId : Nat
+  level : Nat
+  id : List UInt8
+  precursors : List (Precursor α)
+  centroid : Bool
+  scanStartTime : α
+  ionInjectionTime : α
+  /-- the parser's value; `process` ignores it and recomputes the TIC from the retained peaks -/
+  totalIonCurrent : α
+  peaks : List (α × α)
+  mobility : Option (List α)
+
+/-- `spectrum::ProcessedSpectrum<P>` -/
+structure Processed (α : Type) (P : Type) where
+  level : Nat
+  id : List UInt8
+  fileId : Nat
+  scanStartTime : α
+  ionInjectionTime : α
+  precursors : List (Precursor α)
+  peaks : List P
+  totalIonCurrent : α
+
+/-- what `process_ms2` reads: `precursors.first().and_then(|p| p.charge)` is the only use of the precursors -/
+def RawFull.toRaw {α : Type} (r : RawFull α) : Raw α :=
+  { level := r.level, centroid := r.centroid, charge := r.precursors.head?.bind (·.charge), peaks := r.peaks }
+
+section full
+variable {α : Type} [Num α]
+
+/-- `SpectrumProcessor::process`, all output fields; `none` = panic -/
+def processFull (cfg : Cfg α) (r : RawFull α) : Option (Processed α (Peak α)) :=
+  match process cfg r.toRaw with
+  | none => none
+  | some (l, t) =>
+    some { level := r.level, id := r.id, fileId := r.fileId, scanStartTime := r.scanStartTime,
+           ionInjectionTime := r.ionInjectionTime, precursors := r.precursors, peaks := l, totalIonCurrent := t }
+
+/-- `spectrum::IMPeak` -/
+structure IMPeak (α : Type) where
+  intensity : α
+  mass : α
+  mobility : α
+
+def imMassLe (a b : IMPeak α) : Bool := !tltB b.mass a.mass
+
+/-- `mz.iter().zip(intensity.iter().zip(mobility.iter()))` on the already zipped peaks -/
+def zipMob : List (α × α) → List α → List (IMPeak α)
+  | (mz, int) :: ps, m :: ms => { mass := toMass mz 1, intensity := int, mobility := m } :: zipMob ps ms
+  | _, _ => []
+
+/-- `SpectrumProcessor::process_with_mobility`: `none` = panic (`assert!(ms_level == 1)`, `mobility.unwrap()`) -/
+def processIms (r : RawFull α) : Option (Processed α (IMPeak α)) :=
+  if r.level ≠ 1 then none else
+  match r.mobility with
+  | none => none
+  | some mob =>
+    let s := (zipMob r.peaks mob).mergeSort imMassLe
+    some { level := r.level, id := r.id, fileId := r.fileId, scanStartTime := r.scanStartTime,
+           ionInjectionTime := r.ionInjectionTime, precursors := r.precursors, peaks := s,
+           totalIonCurrent := s.foldl (fun a p => add a p.intensity) sumZero }
+
+end full
 
 /-! ## instances -/
 
